@@ -64,7 +64,14 @@ fn run(input: RunInput) -> ScenFuture {
             .route("/slow", slow)
             .route("/svc/*rest", echo.clone())
             .route("/p/:id", echo);
-        let h = w.start_node(w.spec(1, cfg.clone()), router).unwrap();
+        // in some runs the application's service exerts backpressure (tower's ConcurrencyLimit, as
+        // many slots as the peer has streams plus a few): capacity is for requests, and a stream
+        // that never delivers a request must not hold any
+        let h = if w.flag("h_service_backpressure", 0.3) {
+            w.start_node(w.spec(1, cfg.clone()), tower::limit::ConcurrencyLimit::new(router, max_bidi as usize + 4)).unwrap()
+        } else {
+            w.start_node(w.spec(1, cfg.clone()), router).unwrap()
+        };
         let mut pcfg = base_config(10_000, Some(2_000));
         pcfg.max_frame_size = None;
         let p = Arc::new(w.start_node(w.spec(2, pcfg.clone()), Svc::echo(&w)).unwrap());
@@ -83,6 +90,9 @@ fn run(input: RunInput) -> ScenFuture {
                 return w.finish();
             }
         };
+        // whatever H's known-peer table says about the two (High or Allowed, with or without an
+        // address) changes nothing about what a connected peer can do to it
+        w.vary_known_peers(&h, &[(public_key(&adv_key), Some(adv.addr)), (p.peer_id, Some(p.addr))], true);
         let mut link = LinkCfg::clean(200, lat_max);
         if lossy {
             link.drop = w.param("drop_pct", 1, 6) as f64 / 100.0;
